@@ -568,7 +568,22 @@ impl GlobalInferenceCtx<'_> {
                     .into(),
                 );
             }
-            Expr::Binary { lhs, rhs, .. } => {
+            Expr::Binary { lhs, rhs, op } => {
+                // `x : f32 = 7 % 2;`, the operands become floats and there's no `%` for floats
+                if !op.can_perform(&new_ty) {
+                    self.diagnostics.push(TyDiagnostic {
+                        kind: TyDiagnosticKind::BinaryOpMismatch {
+                            op,
+                            first: new_ty,
+                            second: new_ty,
+                        },
+                        file: self.loc.file(),
+                        expr: Some(expr),
+                        range: self.bodies.range_for_expr(expr),
+                        help: None,
+                    });
+                }
+
                 self.replace_weak_tys(lhs, new_ty);
                 self.replace_weak_tys(rhs, new_ty);
             }
